@@ -137,3 +137,31 @@ package rangeproof
 //@   loop 1 modifies elems(result.DResponses), onlyfresh("BV")
 //@   loop 2 invariant 0 <= $i && $i <= len(commit.v) && result != nil && fresh(result) && fresh(result.Cs) && len(result.Cs) == len(commit.c) && fresh(result.DResponses) && len(result.DResponses) == len(commit.d) && fresh(result.VResponses) && len(result.VResponses) == len(commit.v) && forall j in 0..len(result.Cs) :: result.Cs[j] != nil && fresh(result.Cs[j]) && val(result.Cs[j]) == val(commit.c[j])
 //@   loop 2 modifies elems(result.VResponses), onlyfresh("BV")
+
+//@ # ---- three-square lookup table (C13): every number 4d+2 <= 4*limit that some triple of squares reaches has an entry, and entries are decompositions ----
+//@ pred sqentry(e, idx) := len(e) == 0 || (len(e) == 3 && e[0] >= 0 && e[1] >= 0 && e[2] >= 0 && e[0] * e[0] + e[1] * e[1] + e[2] * e[2] == 4 * idx + 2)
+//@ func GenerateSquaresTable
+//@   property C13
+//@   safety
+//@   nonlinear
+//@   requires limit >= 0 && limit <= 1048576
+//@   ensures shape: result != nil && fresh(result) && len(deref(result)) == limit + 1
+//@   ensures[C13] sound: forall idx in 0..limit+1 :: sqentry(deref(result)[idx], idx)
+//@   modifies nothing
+//@   loop 0 invariant 0 <= i && i <= 2049 && fresh(result) && len(result) == limit + 1 && forall idx in 0..limit+1 :: sqentry(result[idx], idx)
+//@   loop 1 invariant 0 <= i && i <= 2048 && 0 <= j && j <= 2049 && i * i <= 4 * limit && fresh(result) && len(result) == limit + 1 && forall idx in 0..limit+1 :: sqentry(result[idx], idx)
+//@   loop 2 invariant 0 <= i && i <= 2048 && 0 <= j && j <= 2048 && 0 <= k && k <= 2049 && i * i + j * j <= 4 * limit && fresh(result) && len(result) == limit + 1 && forall idx in 0..limit+1 :: sqentry(result[idx], idx)
+//@   loop 0 modifies elems(result)
+//@   loop 1 modifies elems(result)
+//@   loop 2 modifies elems(result)
+
+//@ # the table splitter hands out the stored decomposition: for a table whose entries are decompositions (as GenerateSquaresTable builds it) and
+//@ # that has an entry for the requested number, the three results are non-negative and their squares sum to delta
+//@ func (*SquaresTable).Split
+//@   property C13
+//@   safety
+//@   nonlinear
+//@   requires t != nil && delta != nil && forall idx in 0..len(deref(t)) :: len(deref(t)[idx]) == 3 && sqentry(deref(t)[idx], idx)
+//@   ensures[C13] squares: err == nil ==> len(result0) == 3 && result0[0] != nil && result0[1] != nil && result0[2] != nil && val(result0[0]) >= 0 && val(result0[1]) >= 0 && val(result0[2]) >= 0 && val(result0[0]) * val(result0[0]) + val(result0[1]) * val(result0[1]) + val(result0[2]) * val(result0[2]) == val(delta)
+//@   ensures fail: err != nil ==> result0 == nil
+//@   modifies nothing
